@@ -2,6 +2,7 @@
 import hashlib, json, os, sys, time
 
 VERIF = os.path.dirname(os.path.dirname(os.path.abspath(__file__)))
+OUT = os.environ.get("VERIF_OUT", VERIF)   # mutant runs write evidence/replays elsewhere
 
 
 def canon(o):
@@ -76,7 +77,7 @@ class Run:
                 print("KNOWN-FINDING: property=%s %s [key=%s, %d case(s)]" % (self.pid, kkeys[key]["what"], key, v["n"]))
                 continue
             h = hashlib.sha1((self.pid + key).encode()).hexdigest()[:10]
-            path = os.path.join(VERIF, "replays", "%s-%s.json" % (self.pid, h))
+            path = os.path.join(OUT, "replays", "%s-%s.json" % (self.pid, h))
             os.makedirs(os.path.dirname(path), exist_ok=True)
             with open(path, "w") as f:
                 json.dump({"property": self.pid, "key": key, "what": v["what"], "spec": v["spec"],
@@ -110,7 +111,7 @@ class Run:
 
 
 def validate_and_write(pid, ev):
-    path = os.path.join(VERIF, "evidence", "%s.json" % pid)
+    path = os.path.join(OUT, "evidence", "%s.json" % pid)
     os.makedirs(os.path.dirname(path), exist_ok=True)
     txt = json.dumps(ev, indent=1, default=str)
     schema = "/root/.vp/EVIDENCE.schema.json"
